@@ -1,8 +1,8 @@
 # C13Tables.v : the tables the parameter-export path of hdl21/proto/exporting.py depends on (property C13).
-#   c13_prim_map      ideal-primitive name map: ast of the dict literal `prim_map` in ProtoExporter.export_instance
+#   c13_prim_map      ideal-primitive name map: the exporter's behaviour on every registered primitive (order: the literal table of the source)
 #   c13_pulse_class / c13_pulse_rename
-#                     the paramclass tested by isinstance in export_primitive_params and the keyword list of the dict(...)
-#                     it returns: (exported name, attribute read from params), in order
+#                     the ONE paramclass export_primitive_params writes under other names and the renaming
+#                     (exported name, attribute read from params), in order: behaviour on probes of every IDEAL paramclass
 #   c13_prims         the primitive registry: name, primitive type, paramclass name, fields (name, kind, default)
 #                     kind 0 = Scalar, 1 = Optional[Scalar], 2 = Optional[str], 3 = string-valued Enum
 #                     default tag 0 = required, 1 = None, 2 = int (value in the next column), 3 = enum member (its .value)
@@ -17,48 +17,47 @@ import ast, sys, enum, typing, unicodedata
 def _run():
     tree = src("hdl21/proto/exporting.py")
 
-    # ---- prim_map
-    d = dict_in_func(tree, "export_instance", "prim_map")
-    pm = []
-    for k, v in zip(d.keys, d.values):
-        if not (isinstance(k, ast.Constant) and isinstance(v, ast.Constant) and isinstance(k.value, str) and isinstance(v.value, str)):
-            die("C13: prim_map is not a dict of string constants")
-        pm.append((k.value, v.value))
-    if len({k for k, _ in pm}) != len(pm):
-        die("C13: duplicate keys in prim_map")
+    # ---- ideal-primitive name map: behaviour of the exporter on every registered primitive, ordered by the literal table of
+    #      the source wherever it stands (translate_tables.py: prim_export_reading)
+    pm = prim_export_reading()
 
-    # ---- export_primitive_params: `if isinstance(params, <Cls>): return dict(k=params.attr, ...)`
-    f = find_func(tree, "export_primitive_params")
-    ifs = [n for n in f.body if isinstance(n, ast.If)]
-    if len(ifs) != 1:
-        die("C13: export_primitive_params: expected exactly one special-cased parameter class")
-    t = ifs[0].test
-    if not (isinstance(t, ast.Call) and isinstance(t.func, ast.Name) and t.func.id == "isinstance" and len(t.args) == 2
-            and isinstance(t.args[0], ast.Name) and t.args[0].id == "params" and isinstance(t.args[1], ast.Name)):
-        die("C13: export_primitive_params: unexpected test shape")
-    pulse_cls = t.args[1].id
-    body = ifs[0].body
-    if not (len(body) == 1 and isinstance(body[0], ast.Return) and isinstance(body[0].value, ast.Call)
-            and isinstance(body[0].value.func, ast.Name) and body[0].value.func.id == "dict" and not body[0].value.args):
-        die("C13: export_primitive_params: special case is not `return dict(k=params.attr, ...)`")
-    if ifs[0].orelse:
-        die("C13: export_primitive_params: unexpected else branch")
-    ren = []
-    for kw in body[0].value.keywords:
-        v = kw.value
-        if kw.arg is None or not (isinstance(v, ast.Attribute) and isinstance(v.value, ast.Name) and v.value.id == "params"):
-            die("C13: export_primitive_params: dict entry is not `name=params.attr`")
-        ren.append((kw.arg, v.attr))
-    last = f.body[-1]
-    if not (isinstance(last, ast.Return) and isinstance(last.value, ast.Call) and isinstance(last.value.func, ast.Name)
-            and last.value.func.id == "dictify_params"):
-        die("C13: export_primitive_params: the general case is not `return dictify_params(params)`")
+    # ---- export_primitive_params: the ONE parameter class written under other names, and the renaming (exported name, field
+    #      read), in the order of the exported dict - read off the behaviour on a probe of every IDEAL parameter class
+    #      (translate_tables.py: export_renaming_reading).  When the source still has the form
+    #      `if isinstance(params, <Cls>): return dict(k=params.attr, ...)` that reading must agree.
+    pcls, ren = export_renaming_reading()
+    pulse_cls = pcls.__name__
+
+    def _source_form():
+        f = find_func(tree, "export_primitive_params")
+        ifs = [n for n in f.body if isinstance(n, ast.If)]
+        if len(ifs) != 1:
+            die("not one if")
+        t = ifs[0].test
+        if not (isinstance(t, ast.Call) and isinstance(t.func, ast.Name) and t.func.id == "isinstance" and len(t.args) == 2
+                and isinstance(t.args[1], ast.Name)):
+            die("test shape")
+        body = ifs[0].body
+        if not (len(body) == 1 and isinstance(body[0], ast.Return) and isinstance(body[0].value, ast.Call)
+                and isinstance(body[0].value.func, ast.Name) and body[0].value.func.id == "dict" and not body[0].value.args):
+            die("not return dict(...)")
+        out = []
+        for kw in body[0].value.keywords:
+            v = kw.value
+            if kw.arg is None or not (isinstance(v, ast.Attribute) and isinstance(v.value, ast.Name)):
+                die("entry shape")
+            out.append((kw.arg, v.attr))
+        return t.args[1].id, out
+
+    sf = soft(_source_form)
+    if sf is not None and sf != (pulse_cls, ren):
+        die(f"C13: export_primitive_params: the source says {sf}, the live function does {(pulse_cls, ren)}")
 
     # ---- primitive registry, live
     import hdl21.primitives as hp
     from hdl21.scalar import Scalar
     from hdl21.default import Default
-    if not hasattr(hp, pulse_cls):
+    if getattr(hp, pulse_cls, None) is not pcls:
         die(f"C13: {pulse_cls} is not a member of hdl21.primitives")
 
     def kind(dt):
